@@ -19,7 +19,7 @@ use ciphercore_base::ops::comparisons::{
 use ciphercore_base::ops::min_max::{Max, Min};
 use serde_json::json;
 
-pub const HEADER: &str = "From CC Require Import Base.Prelude Model.Cmp.";
+pub const HEADER: &str = "From CC Require Import Base.Prelude Base.Scalar Base.Ty Base.Shape Graph.Value Graph.IR Graph.Eval Model.Cmp Model.GraphTies.";
 
 const OP_NAMES: [&str; 8] = [
     "Equal", "NotEqual", "LessThan", "GreaterThan", "LessThanEqualTo", "GreaterThanEqualTo", "Min", "Max",
@@ -399,7 +399,59 @@ const BCAST: [(&[u64], &[u64]); 10] = [
     (&[4, 1], &[1, 3]),
 ];
 
+/// T-tie: the real instantiated + inlined graph, exported, evaluated inside Coq on ALL operand
+/// pairs of width `w` and compared with the proved model (Model/GraphTies.v).
+fn graph_exhaustive_case(op: usize, sg: bool, w: u32, out: &mut Out) {
+    use ciphercore_base::inline::inline_ops::{inline_operations, InlineConfig, InlineMode};
+    let r = (|| -> Result<(ciphercore_base::graphs::Context, ciphercore_base::graphs::Graph, u64, u64, u64)> {
+        let c = create_context()?;
+        let g = c.create_graph()?;
+        let ia = g.input(array_type(vec![w as u64], BIT))?;
+        let ib = g.input(array_type(vec![w as u64], BIT))?;
+        let o = g.custom_op(custom_op(op, sg), vec![ia, ib])?;
+        g.set_output_node(o)?;
+        g.finalize()?;
+        c.set_main_graph(g.clone())?;
+        c.finalize()?;
+        let inst = run_instantiation_pass(c)?;
+        let inl = inline_operations(&inst.get_context(), InlineConfig { default_mode: InlineMode::Simple, ..Default::default() })?;
+        let kc = inl.get_context();
+        let mg = kc.get_main_graph()?;
+        let ins: Vec<u64> = mg.get_nodes().iter().filter(|n| n.get_operation().is_input()).map(|n| n.get_id()).collect();
+        let oid = mg.get_output_node()?.get_id();
+        Ok((kc, mg, ins[0], ins[1], oid))
+    })();
+    let desc = json!({"op": OP_NAMES[op], "signed": sg, "width": w});
+    match r {
+        Ok((_keep_ctx, mg, i0, i1, oid)) => {
+            let nodes = crate::export::nodes_coq(&mg);
+            out.stat_n("T:graph_nodes", mg.get_nodes().len() as u64);
+            let lhs = if op < 6 {
+                format!("graph_cmp_exhaustive {} {} {} {} {}%nat {}%N {}", nodes, i0, i1, oid, w, op, if sg { "true" } else { "false" })
+            } else {
+                format!("graph_minmax_exhaustive {} {} {} {} {}%nat {} {}", nodes, i0, i1, oid, w, if op == 7 { "true" } else { "false" }, if sg { "true" } else { "false" })
+            };
+            out.case("T:graph_exhaustive", lhs, "true".into(), desc, true);
+        }
+        Err(_) => {
+            // rejected instantiation (e.g. signed comparison of width 1): nothing to export
+            out.stat("T:graph_rejected");
+        }
+    }
+}
+
 pub fn run(tier: &str, seed: u64, out: &mut Out) {
+    {
+        let widths: &[u32] = if tier == "thorough" { &[1, 2, 3, 4, 5] } else { &[1, 2, 3] };
+        for &w in widths {
+            for op in 0..8 {
+                for &sg in &[false, true] {
+                    if (op == 0 || op == 1) && sg { continue; }
+                    graph_exhaustive_case(op, sg, w, out);
+                }
+            }
+        }
+    }
     let mut rng = Rng::new(seed ^ 0xC16);
     let thorough = tier == "thorough";
     let search = tier == "search";
